@@ -138,7 +138,11 @@ pub fn verdict_sig(v: &Verdict) -> String {
 
 /// panic location reduced to the file (line numbers move with unrelated edits)
 pub fn strip_repo(l: &str) -> String {
-    let l = l.trim_start_matches("/repo/");
+    // keep the path from `src/` on, wherever the checkout lives
+    let l = match l.find("/src/") {
+        Some(i) => &l[i + 1..],
+        None => l,
+    };
     match l.rfind(':') {
         Some(i) if l[i + 1..].chars().all(|c| c.is_ascii_digit()) => l[..i].to_string(),
         _ => l.to_string(),
